@@ -244,7 +244,8 @@ class Generator(ABC):
             if self.comment_start_string is not None:
                 output += f'{self.comment_start_string}\n'
             output += self.comment_line_prefix
-            output += f'\n{self.comment_line_prefix}'.join(content.split('\n'))
+            # split at every line boundary that a compiler or a later filter (indent) recognises, so that each line gets the prefix
+            output += f'\n{self.comment_line_prefix}'.join(content.splitlines() or [''])
             if self.comment_end_string is not None:
                 output += f'\n{self.comment_end_string}'
             return output
